@@ -65,3 +65,7 @@ Definition gstep_fn (waits : bool) (s : gstate) (a : gstep) : gstate :=
     match g_cb s with CbStale => {| g_cb := CbNone; g_cur := g_cur s; g_overlap := g_overlap s |} | _ => s end
   end.
 Definition grun (waits : bool) (s : gstate) (tr : list gstep) : gstate := fold_left (gstep_fn waits) tr s.
+
+(* stop() (the link is lost): what is still queued for dispatch - received completely, waiting behind a running callback - is discarded,
+   so that it is not handled on the next connection (D44) *)
+Definition d_stop (s : dstate) : dstate := {| d_queue := 0; d_trigger := d_trigger s; d_pc := d_pc s; d_pending_sets := 0; d_delivered := d_delivered s |}.
